@@ -408,7 +408,12 @@ func runC19(ctx *core.Ctx, idx int) *core.Result {
 			{"-p relative", []string{"-p", "sub/the.patch", "t.go"}, nil, "sub/the.patch"},
 			{"-p absolute", []string{"-p", filepath.Join(dir, "sub", "the.patch"), "t.go"}, nil, filepath.Join(dir, "sub", "the.patch")},
 			{"stdin", []string{"t.go"}, []byte(text), "stdin"},
+			// the patch is not the first one loaded: its positions are its own, wherever it lies in the set of files
+			{"-p behind a valid patch", []string{"-p", "ok.patch", "-p", "sub/the.patch", "t.go"}, nil, "sub/the.patch"},
+			{"-P list behind a valid patch", []string{"-P", "list.txt", "t.go"}, nil, "sub/the.patch"},
 		}
+		os.WriteFile(filepath.Join(dir, "ok.patch"), []byte("# a patch that loads\n@@\nvar x expression\n@@\n-neverThere(x)\n+neverHere(x)\n\n@@\n@@\n-neverThereEither()\n+neverHereEither()\n"), 0o644)
+		os.WriteFile(filepath.Join(dir, "list.txt"), []byte("ok.patch\nsub/the.patch\n"), 0o644)
 		dl := dels[(idx/2)%len(dels)]
 		cr := ctx.RunCLI(core.CLIOpts{Dir: dir, Args: dl.args, Stdin: dl.stdin})
 		if cc := cr.CrashClass(); cc != "" {
